@@ -251,3 +251,41 @@ package bondmachine
 //@           vm.Processors[procId].Extra_states[*], vm.Processors[procId].DeferredInstructions[*]
 //@   loop 1: invariant mine: vm.Processors[procId] == pre(vm.Processors[procId]) && vm.Processors[procId] != nil && vm.Processors[procId].Mach != nil && vm.Processors[procId].SimDelayArray == nil
 //@   loop 1: invariant deferred: vm.Processors[procId].DeferredInstructions == pre(vm.Processors[procId].DeferredInstructions) || freshl(vm.Processors[procId].DeferredInstructions)
+
+// ---- VM.CopyState (C15: the report rules compare the current tick with a copy of the previous one; C09) ----
+//@ props C09 C15
+
+// no flag array of one VM is a flag array of the other
+//@ pred flagsApart(a *VM, b *VM) :=
+//@      arr(a.InputsValid) != arr(b.InputsValid) && arr(a.InputsValid) != arr(b.OutputsValid) && arr(a.InputsValid) != arr(b.InternalInputsValid) && arr(a.InputsValid) != arr(b.InternalOutputsValid) && arr(a.InputsValid) != arr(b.InputsRecv) && arr(a.InputsValid) != arr(b.OutputsRecv) && arr(a.InputsValid) != arr(b.InternalInputsRecv) && arr(a.InputsValid) != arr(b.InternalOutputsRecv) &&
+//@      arr(a.OutputsValid) != arr(b.InputsValid) && arr(a.OutputsValid) != arr(b.OutputsValid) && arr(a.OutputsValid) != arr(b.InternalInputsValid) && arr(a.OutputsValid) != arr(b.InternalOutputsValid) && arr(a.OutputsValid) != arr(b.InputsRecv) && arr(a.OutputsValid) != arr(b.OutputsRecv) && arr(a.OutputsValid) != arr(b.InternalInputsRecv) && arr(a.OutputsValid) != arr(b.InternalOutputsRecv) &&
+//@      arr(a.InternalInputsValid) != arr(b.InputsValid) && arr(a.InternalInputsValid) != arr(b.OutputsValid) && arr(a.InternalInputsValid) != arr(b.InternalInputsValid) && arr(a.InternalInputsValid) != arr(b.InternalOutputsValid) && arr(a.InternalInputsValid) != arr(b.InputsRecv) && arr(a.InternalInputsValid) != arr(b.OutputsRecv) && arr(a.InternalInputsValid) != arr(b.InternalInputsRecv) && arr(a.InternalInputsValid) != arr(b.InternalOutputsRecv) &&
+//@      arr(a.InternalOutputsValid) != arr(b.InputsValid) && arr(a.InternalOutputsValid) != arr(b.OutputsValid) && arr(a.InternalOutputsValid) != arr(b.InternalInputsValid) && arr(a.InternalOutputsValid) != arr(b.InternalOutputsValid) && arr(a.InternalOutputsValid) != arr(b.InputsRecv) && arr(a.InternalOutputsValid) != arr(b.OutputsRecv) && arr(a.InternalOutputsValid) != arr(b.InternalInputsRecv) && arr(a.InternalOutputsValid) != arr(b.InternalOutputsRecv) &&
+//@      arr(a.InputsRecv) != arr(b.InputsValid) && arr(a.InputsRecv) != arr(b.OutputsValid) && arr(a.InputsRecv) != arr(b.InternalInputsValid) && arr(a.InputsRecv) != arr(b.InternalOutputsValid) && arr(a.InputsRecv) != arr(b.InputsRecv) && arr(a.InputsRecv) != arr(b.OutputsRecv) && arr(a.InputsRecv) != arr(b.InternalInputsRecv) && arr(a.InputsRecv) != arr(b.InternalOutputsRecv) &&
+//@      arr(a.OutputsRecv) != arr(b.InputsValid) && arr(a.OutputsRecv) != arr(b.OutputsValid) && arr(a.OutputsRecv) != arr(b.InternalInputsValid) && arr(a.OutputsRecv) != arr(b.InternalOutputsValid) && arr(a.OutputsRecv) != arr(b.InputsRecv) && arr(a.OutputsRecv) != arr(b.OutputsRecv) && arr(a.OutputsRecv) != arr(b.InternalInputsRecv) && arr(a.OutputsRecv) != arr(b.InternalOutputsRecv) &&
+//@      arr(a.InternalInputsRecv) != arr(b.InputsValid) && arr(a.InternalInputsRecv) != arr(b.OutputsValid) && arr(a.InternalInputsRecv) != arr(b.InternalInputsValid) && arr(a.InternalInputsRecv) != arr(b.InternalOutputsValid) && arr(a.InternalInputsRecv) != arr(b.InputsRecv) && arr(a.InternalInputsRecv) != arr(b.OutputsRecv) && arr(a.InternalInputsRecv) != arr(b.InternalInputsRecv) && arr(a.InternalInputsRecv) != arr(b.InternalOutputsRecv) &&
+//@      arr(a.InternalOutputsRecv) != arr(b.InputsValid) && arr(a.InternalOutputsRecv) != arr(b.OutputsValid) && arr(a.InternalOutputsRecv) != arr(b.InternalInputsValid) && arr(a.InternalOutputsRecv) != arr(b.InternalOutputsValid) && arr(a.InternalOutputsRecv) != arr(b.InputsRecv) && arr(a.InternalOutputsRecv) != arr(b.OutputsRecv) && arr(a.InternalOutputsRecv) != arr(b.InternalInputsRecv) && arr(a.InternalOutputsRecv) != arr(b.InternalOutputsRecv)
+
+// Copying the state of another simulation writes the destination's own arrays in place: every register and flag array
+// of the destination is the same array afterwards (the report's event list holds pointers into the flag arrays of the
+// "previous tick" VM, and the on-valid rules compare through them), each flag array then holds the source's flags,
+// the absolute tick is taken over, and the pending deferred instructions are copied into a map of the destination's
+// own instead of being shared with the source.
+//@ func (vm *VM) CopyState(vmSource *VM) error
+//@   requires apart: vm != nil && vmSource != nil ==> sepSim(vm) && flagsApart(vm, vmSource)
+//@   ensures rejected: vm == nil || vmSource == nil ==> result != nil
+//@   ensures inplace: vm != nil ==> vm.Processors == old(vm.Processors) &&
+//@             vm.Inputs_regs == old(vm.Inputs_regs) && vm.Outputs_regs == old(vm.Outputs_regs) && vm.Internal_inputs_regs == old(vm.Internal_inputs_regs) && vm.Internal_outputs_regs == old(vm.Internal_outputs_regs) &&
+//@             vm.InputsValid == old(vm.InputsValid) && vm.OutputsValid == old(vm.OutputsValid) && vm.InternalInputsValid == old(vm.InternalInputsValid) && vm.InternalOutputsValid == old(vm.InternalOutputsValid) &&
+//@             vm.InputsRecv == old(vm.InputsRecv) && vm.OutputsRecv == old(vm.OutputsRecv) && vm.InternalInputsRecv == old(vm.InternalInputsRecv) && vm.InternalOutputsRecv == old(vm.InternalOutputsRecv)
+//@   ensures copied_InputsValid: result == nil ==> (forall i int :: 0 <= i && i < len(vm.InputsValid) && i < len(vmSource.InputsValid) ==> vm.InputsValid[i] == vmSource.InputsValid[i])
+//@   ensures copied_OutputsValid: result == nil ==> (forall i int :: 0 <= i && i < len(vm.OutputsValid) && i < len(vmSource.OutputsValid) ==> vm.OutputsValid[i] == vmSource.OutputsValid[i])
+//@   ensures copied_InternalInputsValid: result == nil ==> (forall i int :: 0 <= i && i < len(vm.InternalInputsValid) && i < len(vmSource.InternalInputsValid) ==> vm.InternalInputsValid[i] == vmSource.InternalInputsValid[i])
+//@   ensures copied_InternalOutputsValid: result == nil ==> (forall i int :: 0 <= i && i < len(vm.InternalOutputsValid) && i < len(vmSource.InternalOutputsValid) ==> vm.InternalOutputsValid[i] == vmSource.InternalOutputsValid[i])
+//@   ensures copied_InputsRecv: result == nil ==> (forall i int :: 0 <= i && i < len(vm.InputsRecv) && i < len(vmSource.InputsRecv) ==> vm.InputsRecv[i] == vmSource.InputsRecv[i])
+//@   ensures copied_OutputsRecv: result == nil ==> (forall i int :: 0 <= i && i < len(vm.OutputsRecv) && i < len(vmSource.OutputsRecv) ==> vm.OutputsRecv[i] == vmSource.OutputsRecv[i])
+//@   ensures copied_InternalInputsRecv: result == nil ==> (forall i int :: 0 <= i && i < len(vm.InternalInputsRecv) && i < len(vmSource.InternalInputsRecv) ==> vm.InternalInputsRecv[i] == vmSource.InternalInputsRecv[i])
+//@   ensures copied_InternalOutputsRecv: result == nil ==> (forall i int :: 0 <= i && i < len(vm.InternalOutputsRecv) && i < len(vmSource.InternalOutputsRecv) ==> vm.InternalOutputsRecv[i] == vmSource.InternalOutputsRecv[i])
+//@   ensures own_pending: result == nil ==> fresh(vm.DeferredInstructions)
+//@   ensures tick: result == nil ==> vm.abs_tick == vmSource.abs_tick
+//@   frameonly
